@@ -10,7 +10,7 @@ EXTENDS Naturals, Sequences, FiniteSets, TLC
 CONSTANTS MaxDepth, MaxLen, PinIsInstance, PinRestoreCfgOnly
 Timeouts == {6, 1}
 Retries == {10, 2}
-Creds == {"v2c:a", "v2c:b", "v1:a", "v3:u"}
+Creds == {"v2c:a", "v2c:b", "v1:a", "v3:u", "v3:w"}
 Family(c) == CASE c \in {"v2c:a", "v2c:b"} -> "v2c" [] c = "v1:a" -> "v1" [] OTHER -> "v3"
 \* Python: type(old) != type(new); pinned variant: not isinstance(new, type(old)) where V2C is a subclass of V1
 TypeDiffers(old, new) == IF PinIsInstance THEN ~(Family(new) = Family(old) \/ (Family(old) = "v1" /\ Family(new) = "v2c"))
